@@ -10,6 +10,11 @@ Search (implementation vs the property, independent Python oracle `spec_lm` = th
 geometrically): every container format a grid can be expressed in (`.vti`, `.vtr`, `.vts`, `.vtu` written with
 `fieldcompare.io.write`, legacy `.vtk` and `.xdmf` written by meshio) must read to the same content, and any two of
 them must compare equal with `MeshFieldsComparator` (domain equal, every point field PASSED, no field FAILED).
+Compressed containers (phase 5): a directed batch writes one grid per family as zlib / lzma / lz4-compressed
+`.vti/.vtr/.vts/.vtu` (inline binary) with block sizes taken from the byte lengths of the grid's own arrays (arrays
+that fill exactly 1, 2, 4 blocks, miss / exceed a block boundary by one byte or one item), in VTK's header convention
+(partial-size word 0 when the last block is full) and in meshio's (block size): same content as the grid, equal to
+the ascii containers.
 Adversarial: zero extents in every subset of directions, grids in every coordinate plane, rotated / sheared
 direction matrices, extents that do not start at 0 (all three structured formats; for `.vti` this was
 finding F20, fixed by a3961d2 — ordinary cases now), empty ordinate arrays, shuffled and repeated meshio blocks.
@@ -27,6 +32,7 @@ from fractions import Fraction
 import numpy as np
 
 from fcv import core, meshgen
+from fcv import vtkcomp_p5d as vtkcomp
 from fcv.predio import NP_DT
 
 KINDS = ("image", "rect", "struct")
@@ -369,24 +375,42 @@ def _num(dt, x):
     return repr(float(x)) if dt in ("f64", "f32") else str(int(x))
 
 
-def _data_array(f, extra=""):
-    ncomp = _rs(f["tail"])
-    return (f'<DataArray type="{VTK_DT[f["dt"]]}" Name="{f["name"]}" NumberOfComponents="{ncomp}" format="ascii"{extra}>\n'
-            + " ".join(_num(f["dt"], x) for x in f["v"]) + "\n</DataArray>\n")
+def _payload(vtk_type, name, ncomp, np_dt, vals, text_of, enc=None, lens=None, extra=""):
+    """one <DataArray>: ascii (enc None) or zlib/lzma/lz4-compressed inline binary (fcv.vtkcomp_p5d)"""
+    head = f'<DataArray type="{vtk_type}" Name="{name}" NumberOfComponents="{ncomp}"'
+    if enc is None:
+        return head + f' format="ascii"{extra}>\n' + " ".join(text_of(x) for x in vals) + "\n</DataArray>\n"
+    raw = np.array(vals, dtype=np_dt).astype(np.dtype(np_dt).newbyteorder("<")).tobytes()
+    if lens is not None:
+        lens.append(len(raw))
+    return head + f' format="binary"{extra}>\n' + vtkcomp.encode_inline(raw, enc) + "\n</DataArray>\n"
 
 
-def _coords_array(name, vals, ncomp=1):
-    return (f'<DataArray type="Float64" Name="{name}" NumberOfComponents="{ncomp}" format="ascii">\n'
-            + " ".join(repr(float(x)) for x in vals) + "\n</DataArray>\n")
+def _data_array(f, extra="", enc=None, lens=None):
+    return _payload(VTK_DT[f["dt"]], f["name"], _rs(f["tail"]), NP_DT[f["dt"]], f["v"], lambda x: _num(f["dt"], x),
+                    enc, lens, extra)
+
+
+def _coords_array(name, vals, ncomp=1, enc=None, lens=None):
+    return _payload("Float64", name, ncomp, np.float64, vals, lambda x: repr(float(x)), enc, lens)
+
+
+def _int_array(vtk_type, np_dt, name, vals, enc=None, lens=None):
+    return _payload(vtk_type, name, 1, np_dt, vals, lambda x: str(int(x)), enc, lens)
 
 
 def _extent_attr(grid):
     return " ".join(f"{grid['lo'][d]} {grid['lo'][d] + grid['ext'][d]}" for d in range(3))
 
 
-def _piece_data(grid):
-    return ("<PointData>\n" + "".join(_data_array(f) for f in grid["pf"]) + "</PointData>\n<CellData>\n"
-            + "".join(_data_array(f) for f in grid["cf"]) + "</CellData>\n")
+def _piece_data(grid, enc=None, lens=None):
+    return ("<PointData>\n" + "".join(_data_array(f, enc=enc, lens=lens) for f in grid["pf"]) + "</PointData>\n<CellData>\n"
+            + "".join(_data_array(f, enc=enc, lens=lens) for f in grid["cf"]) + "</CellData>\n")
+
+
+def _root(gtype, enc=None):
+    attrs = 'byte_order="LittleEndian" header_type="UInt64"' if enc is None else vtkcomp.root_attrs(enc)
+    return f'<?xml version="1.0"?>\n<VTKFile type="{gtype}" version="1.0" {attrs}>\n'
 
 
 def file_origin(grid):
@@ -399,39 +423,66 @@ def file_origin(grid):
             for r in range(3)]
 
 
-def write_vti(path, grid):
+def write_vti(path, grid, enc=None, lens=None):
     ext = _extent_attr(grid)
     o = file_origin(grid)
     attrs = f'WholeExtent="{ext}" Origin="{" ".join(repr(x) for x in o)}" Spacing="{" ".join(repr(x) for x in grid["spacing"])}"'
     if grid.get("direction_attr", True):
         attrs += ' Direction="' + " ".join(repr(x) for row in grid["basis"] for x in row) + '"'
-    txt = ('<?xml version="1.0"?>\n<VTKFile type="ImageData" version="1.0" byte_order="LittleEndian" header_type="UInt64">\n'
-           f'<ImageData {attrs}>\n<Piece Extent="{ext}">\n' + _piece_data(grid) + "</Piece>\n</ImageData>\n</VTKFile>\n")
+    txt = (_root("ImageData", enc)
+           + f'<ImageData {attrs}>\n<Piece Extent="{ext}">\n' + _piece_data(grid, enc, lens) + "</Piece>\n</ImageData>\n</VTKFile>\n")
     with open(path, "w") as fh:
         fh.write(txt)
 
 
-def write_vtr(path, grid):
+def write_vtr(path, grid, enc=None, lens=None):
     ext = _extent_attr(grid)
     ords = [list(o) for o in grid["ords"]]
     if grid.get("empty_flat_ordinates"):
         ords = [[] if grid["ext"][d] == 0 else ords[d] for d in range(3)]
-    txt = ('<?xml version="1.0"?>\n<VTKFile type="RectilinearGrid" version="1.0" byte_order="LittleEndian" header_type="UInt64">\n'
-           f'<RectilinearGrid WholeExtent="{ext}">\n<Piece Extent="{ext}">\n' + _piece_data(grid) + "<Coordinates>\n"
-           + "".join(_coords_array("xyz"[d], ords[d]) for d in range(3))
+    txt = (_root("RectilinearGrid", enc)
+           + f'<RectilinearGrid WholeExtent="{ext}">\n<Piece Extent="{ext}">\n' + _piece_data(grid, enc, lens) + "<Coordinates>\n"
+           + "".join(_coords_array("xyz"[d], ords[d], enc=enc, lens=lens) for d in range(3))
            + "</Coordinates>\n</Piece>\n</RectilinearGrid>\n</VTKFile>\n")
     with open(path, "w") as fh:
         fh.write(txt)
 
 
-def write_vts(path, grid):
+def write_vts(path, grid, enc=None, lens=None):
     ext = _extent_attr(grid)
-    txt = ('<?xml version="1.0"?>\n<VTKFile type="StructuredGrid" version="1.0" byte_order="LittleEndian" header_type="UInt64">\n'
-           f'<StructuredGrid WholeExtent="{ext}">\n<Piece Extent="{ext}">\n' + _piece_data(grid) + "<Points>\n"
-           + _coords_array("Points", [c for p in grid["pts"] for c in p], 3)
+    txt = (_root("StructuredGrid", enc)
+           + f'<StructuredGrid WholeExtent="{ext}">\n<Piece Extent="{ext}">\n' + _piece_data(grid, enc, lens) + "<Points>\n"
+           + _coords_array("Points", [c for p in grid["pts"] for c in p], 3, enc=enc, lens=lens)
            + "</Points>\n</Piece>\n</StructuredGrid>\n</VTKFile>\n")
     with open(path, "w") as fh:
         fh.write(txt)
+
+
+VTK_CELL_ID = {"LINE": 3, "QUAD": 9, "HEXAHEDRON": 12}
+
+
+def write_vtu_xml(path, grid, enc=None, lens=None):
+    """the explicit unstructured description of the lattice (spec_lm), written by the harness (ascii or compressed)"""
+    lm = spec_lm(grid)
+    rows = [r for _, rws in lm["cells"] for r in rws]
+    types = [VTK_CELL_ID[t] for t, rws in lm["cells"] for _ in rws]
+    offs, o = [], 0
+    for r in rows:
+        o += len(r)
+        offs.append(o)
+    txt = (_root("UnstructuredGrid", enc)
+           + f'<UnstructuredGrid>\n<Piece NumberOfPoints="{len(lm["points"])}" NumberOfCells="{len(rows)}">\n'
+           + _piece_data(grid, enc, lens) + "<Points>\n"
+           + _coords_array("Points", [c for p in lm["points"] for c in p], 3, enc=enc, lens=lens) + "</Points>\n<Cells>\n"
+           + _int_array("Int64", np.int64, "connectivity", [i for r in rows for i in r], enc, lens)
+           + _int_array("Int64", np.int64, "offsets", offs, enc, lens)
+           + _int_array("UInt8", np.uint8, "types", types, enc, lens)
+           + "</Cells>\n</Piece>\n</UnstructuredGrid>\n</VTKFile>\n")
+    with open(path, "w") as fh:
+        fh.write(txt)
+
+
+XML_WRITERS = {"vti": write_vti, "vtr": write_vtr, "vts": write_vts, "vtu": write_vtu_xml}
 
 
 def write_vtu(path_noext, grid):
@@ -743,6 +794,125 @@ def check_grid_files(ctx, grid, tmp, lean_lines, pending, with_meshio=False):
                               what=f"default comparison of the {nx} and {ny} representations of one grid does not pass")
 
 
+# ------------------------------------------------------------------------------------------------ compressed containers
+# Directed batch (phase 5): the same grid written as zlib / lzma / lz4-compressed .vti/.vtr/.vts/.vtu (inline binary,
+# harness writer above + fcv.vtkcomp_p5d) must read to the content of the grid and compare equal to the ascii
+# containers.  The block size is a header field of every array; it is chosen relative to the byte lengths of the
+# grid's own arrays so that arrays fill exactly 1, 2, 4 blocks or miss / exceed a block boundary by one byte / one
+# item, in VTK's header convention (partial-size word 0 when the last block is full) and in meshio's (= block size).
+
+def gen_comp_grid(rng, family, maxe=3):
+    """a grid of `family` with an f64 scalar point field and an f64 scalar cell field first (block sizes are derived
+    from their byte lengths), possibly further random fields"""
+    g = gen_grid(rng, maxe=maxe, family=family)
+    npnt = len(g["pts"])
+    ncell = 1
+    for e in g["ext"]:
+        ncell *= max(e, 1)
+    g["pf"] = [{"name": "pa", "dt": "f64", "tail": [], "v": meshgen._distinct_values(rng, "f64", npnt)}] + g["pf"][:1]
+    g["cf"] = [{"name": "ca", "dt": "f64", "tail": [], "v": meshgen._distinct_values(rng, "f64", ncell)}] + g["cf"][:1]
+    return g
+
+
+def comp_block_sizes(grid):
+    lp = 8 * len(grid["pts"])
+    lc = 8 * len(lattice_cells(grid["ext"])[1])
+    bs = {lp, lp // 2, lp // 4, lp - 1, lp + 1, lp - 8, lp + 8, lp // 2 + 1, lp // 2 - 1, lc, lc // 2, 3 * lp}
+    return sorted(b for b in bs if b >= 1)
+
+
+def comp_configs(ctx, grid, salt=0):
+    """quick: every block size with zlib in both header conventions + one more (codec, convention) in rotation;
+    thorough: the full product"""
+    codecs = vtkcomp.codecs()
+    others = [(c, v) for c in codecs if c != "zlib" for v in ("vtk", "meshio")]
+    out = []
+    for i, B in enumerate(comp_block_sizes(grid)):
+        combos = [("zlib", "vtk"), ("zlib", "meshio")]
+        combos += others if ctx.tier == "thorough" else [others[(i + salt) % len(others)]]
+        for j, (c, v) in enumerate(combos):
+            out.append({"comp": c, "B": B, "hs": (4, 8)[(i + j + salt) % 2], "conv": v})
+    return out
+
+
+def check_grid_compressed(ctx, grid, tmp, lean_lines, pending, salt=0, encs=None, fmts=None):
+    grid_unit(grid)
+    spec = spec_lm(grid)
+    specP, specC = content_strings(spec)
+    spec_dt = dtypes_of(spec)
+    fmts = fmts or formats_of(grid)
+    # reference: the ascii containers of the grid
+    ascii_objs = []
+    for fmt in fmts:
+        path = os.path.join(tmp, f"ca_{fmt}.{fmt}")
+        XML_WRITERS[fmt](path, grid)
+        fobj, lm = impl_read(path)
+        os.remove(path)
+        impl = lm if isinstance(lm, str) else list(content_strings(lm))
+        ctx.case(("cfile-ascii", fmt, grid_key(grid)), nontrivial=True, tags=[f"fmt-{fmt}", "compressed-batch-ascii-reference"])
+        if impl != [specP, specC]:
+            ctx.violation({"op": "grid-file", "format": fmt, "grid": grid, "writer": "xml"}, _short(impl), _short([specP, specC]),
+                          what=f".{fmt} file (ascii, harness writer) does not read to the content of the grid it describes")
+        elif fobj is not None:
+            ascii_objs.append((fmt, fobj))
+    check_lines, check_meta = [], []
+    for ci, enc in enumerate(encs if encs is not None else comp_configs(ctx, grid, salt)):
+        for fi, fmt in enumerate(fmts):
+            lens = []
+            path = os.path.join(tmp, f"cc_{fmt}.{fmt}")
+            XML_WRITERS[fmt](path, grid, enc, lens)
+            fobj, lm = impl_read(path)
+            os.remove(path)
+            impl = lm if isinstance(lm, str) else list(content_strings(lm))
+            ks = sorted({min(vtkcomp.fills_exactly(n, enc["B"]), 3) for n in lens})
+            tags = [f"fmt-{fmt}", f"family-{grid['family']}", "compressed", f"comp-{enc['comp']}", f"header-{enc['conv']}",
+                    f"hs-{enc['hs']}"] + [("array-fills-%s-blocks-exactly" % ("3+" if k == 3 else k)) if k else "array-with-partial-last-block"
+                                          for k in ks]
+            if any(0 < n < enc["B"] for n in lens):
+                tags.append("array-shorter-than-block")
+            if any(n == 0 for n in lens):
+                tags.append("array-empty")
+            case = {"op": "grid-file", "format": fmt, "grid": grid, "enc": enc}
+            ctx.case(("cfile", fmt, grid_key(grid), tuple(sorted(enc.items()))), nontrivial=True, tags=tags,
+                     sample={"format": fmt, "ext": grid["ext"], "enc": enc, "array_bytes": lens,
+                             "impl_cells": (impl if isinstance(impl, str) else len(impl[1]))})
+            if impl != [specP, specC]:
+                ctx.violation(case, _short(impl), _short([specP, specC]), cls=None,
+                              what=f"compressed .{fmt} file ({enc['comp']}, block size {enc['B']}, {enc['conv']} header convention, array "
+                                   f"bytes {lens}) does not read to the content of the grid it describes")
+            elif dtypes_of(lm) != spec_dt:
+                ctx.violation(case, dtypes_of(lm), spec_dt, what=f"compressed .{fmt}: numeric type of a field changed by reading")
+            if fmt != "vtu" and ctx.driver_ok and not grid.get("inexact") and ci % 4 == 0:
+                lean_lines.append(enc_read(grid, {"vti": "image", "vtr": "rect", "vts": "struct"}[fmt]))
+                pending.append(("read", case, impl))
+            # the same grid in another (ascii) container: default comparison, both orders
+            if fobj is not None and ascii_objs:
+                oth = [x for x in ascii_objs if x[0] != fmt] or ascii_objs
+                ofmt, oobj = oth[(ci + fi) % len(oth)]
+                for x, y, nx, ny, encs in ((fobj, oobj, fmt, ofmt, [enc, None]), (oobj, fobj, ofmt, fmt, [None, enc])):
+                    ok, detail = compare_pair(x, y)
+                    ctx.case(("cpair", nx, ny, grid_key(grid), tuple(sorted(enc.items()))), nontrivial=True,
+                             tags=[f"pair-{nx}-{ny}", "pair-compressed-ascii"])
+                    if not ok:
+                        ctx.violation({"op": "grid-pair", "formats": [nx, ny], "grid": grid, "encs": encs, "writer": "xml"}, detail,
+                                      "equal domain, every point field PASSED",
+                                      what=f"default comparison of the {nx} and {ny} representations of one grid (one of them "
+                                           f"compressed: {enc}) does not pass")
+            # the harness' payload writer vs the Lean spec writer (Fc.Spec.encodeCompressed) — VTK convention only
+            if ctx.driver_ok and enc["conv"] == "vtk" and fi == 0 and grid["pf"] and len(grid["pts"]) <= 256:
+                raws = [np.array(f["v"], dtype=NP_DT[f["dt"]]).astype(np.dtype(NP_DT[f["dt"]]).newbyteorder("<")).tobytes()
+                        for f in grid["pf"]]
+                check_lines.append(vtkcomp.lean_enc_line(raws, enc))
+                check_meta.append((enc, raws))
+    if check_lines:
+        for rep, (enc, raws) in zip(ctx.lean(check_lines), check_meta):
+            texts = vtkcomp.lean_enc_texts(rep)
+            mine = [vtkcomp.encode_inline(r, enc) for r in raws]
+            ctx.dist["compressed-payload-vs-lean-spec-writer"] += 1
+            if texts != mine:
+                ctx.inconsistent({"op": "payload", "enc": enc, "lens": [len(r) for r in raws]}, str(mine)[:300], str(texts)[:300])
+
+
 def _short(x, n=12):
     if isinstance(x, str):
         return x
@@ -955,6 +1125,19 @@ def run(ctx):
         # (3b) decimal origins / spacings: representations agree up to rounding; content after snapping, comparator
         for _ in range(ctx.scale(80, 3000)):
             check_grid_files(ctx, gen_inexact_grid(rng), tmp, lean_lines, pending)
+        # (3c) compressed containers, block boundaries (directed: one grid per family, fixed block-size list)
+        for k, fam in enumerate(["axis", "axis", "affine", "rect", "curvi"] + ["axis", "affine", "rect", "curvi"] * ctx.scale(0, 5)):
+            check_grid_compressed(ctx, gen_comp_grid(rng, fam, maxe=(2 if k == 0 else 3)), tmp, lean_lines, pending, salt=k)
+            settle(ctx, lean_lines, pending)
+        # ... and at the writers' default block size (32768 bytes = a Float64 field on 16 x 16 x 16 points)
+        g = simple_grid((15, 15, 15))
+        g["direction_attr"] = False
+        g["pf"] = [{"name": "pa", "dt": "f64", "tail": [], "v": meshgen._distinct_values(rng, "f64", len(g["pts"]))}]
+        g["cf"] = [{"name": "ca", "dt": "f64", "tail": [], "v": meshgen._distinct_values(rng, "f64", 15 ** 3)}]
+        big = [{"comp": "zlib", "B": 32768, "hs": 4, "conv": "vtk"}, {"comp": "zlib", "B": 32768, "hs": 8, "conv": "meshio"}]
+        if ctx.tier == "thorough":
+            big += [{"comp": c, "B": 32768, "hs": 4, "conv": v} for c in vtkcomp.codecs() if c != "zlib" for v in ("vtk", "meshio")]
+        check_grid_compressed(ctx, g, tmp, [], [], encs=big, fmts=["vti", "vtr"] + (["vts", "vtu"] if ctx.tier == "thorough" else []))
         # (4) meshio bridge
         for _ in range(ctx.scale(1500, 40000)):
             r = gen_mio_case(rng)
@@ -1002,8 +1185,12 @@ def _eval_case(case):
         try:
             grid, fmt = case["grid"], case["format"]
             base = os.path.join(tmp, "g")
-            {"vti": write_vti, "vtr": write_vtr, "vts": write_vts}.get(fmt, lambda p, g: None)(base + "." + fmt, grid)
-            path = base + "." + fmt if fmt != "vtu" else write_vtu(base, grid)
+            if case.get("enc") or case.get("writer") == "xml":
+                XML_WRITERS[fmt](base + "." + fmt, grid, case.get("enc"))
+                path = base + "." + fmt
+            else:
+                {"vti": write_vti, "vtr": write_vtr, "vts": write_vts}.get(fmt, lambda p, g: None)(base + "." + fmt, grid)
+                path = base + "." + fmt if fmt != "vtu" else write_vtu(base, grid)
             _, lm = impl_read(path)
             if grid.get("inexact"):
                 lm = snap_points(lm, grid)
@@ -1015,9 +1202,12 @@ def _eval_case(case):
         tmp = tempfile.mkdtemp(prefix="fcv_c07_")
         try:
             objs = []
-            for fmt in case["formats"]:
-                base = os.path.join(tmp, "g" + fmt.strip("."))
-                if fmt in ("vti", "vtr", "vts"):
+            for k, fmt in enumerate(case["formats"]):
+                base = os.path.join(tmp, f"g{k}" + fmt.strip("."))
+                if case.get("writer") == "xml":
+                    path = base + "." + fmt
+                    XML_WRITERS[fmt](path, case["grid"], case["encs"][k])
+                elif fmt in ("vti", "vtr", "vts"):
                     {"vti": write_vti, "vtr": write_vtr, "vts": write_vts}[fmt](base + "." + fmt, case["grid"])
                     path = base + "." + fmt
                 elif fmt == "vtu":
